@@ -37,6 +37,14 @@ def st_valid(draw, prior):
     kind = draw(st.sampled_from([1, 1, 1, 0, 3, 7, 10000, 30000, 30000, 5, 20000, 29999, 65535]))
     ts = E.T0 + draw(st.integers(0, 5))
     tags = []
+    addressable = [p for p in prior if R.address(p) is not None and p["pubkey"] in E.PKS[:3]]
+    if addressable and draw(st.integers(0, 3)) == 0:
+        # a sibling of an earlier addressable event: same author and kind, older / equal / newer,
+        # same or another d tag (out-of-order arrival within and across addresses)
+        sib = draw(st.sampled_from(addressable))
+        k = E.PKS.index(sib["pubkey"])
+        kind = sib["kind"]
+        ts = max(1, sib["created_at"] + draw(st.integers(-2, 2)))
     if kind == 5 and prior:
         for _ in range(draw(st.integers(1, 2))):
             tags.append(["e", draw(st.sampled_from(prior))["id"]])
